@@ -127,13 +127,21 @@ impl crate::graph::GraphRunner for MTGraph {
             threads.push(th);
         }
         debug!("Joining threads");
+        let mut first_err = None;
         for (n, th) in threads.into_iter().rev().enumerate() {
             let name = th.thread().name().unwrap().to_string();
             debug!("Waiting for {}", name);
-            let j = th
-                .join()
-                .expect("joining thread")
-                .expect("block exit status");
+            let j = match th.join().expect("joining thread") {
+                Ok(j) => j,
+                Err(e) => {
+                    // A failed block is an error for the caller to handle, not
+                    // a panic. Keep joining the other threads; they see their
+                    // streams close and finish.
+                    error!("Block {} failed: {e}", name);
+                    first_err.get_or_insert(e);
+                    BlockStats::default()
+                }
+            };
             debug!("Thread {} finished with {:?}", name, j);
             self.block_stats.insert((n, name), j);
         }
@@ -143,6 +151,9 @@ impl crate::graph::GraphRunner for MTGraph {
             if !line.is_empty() {
                 info!("{}", line);
             }
+        }
+        if let Some(e) = first_err {
+            return Err(e);
         }
         Ok(())
     }
